@@ -325,10 +325,10 @@ def orderText (st : St) : Option String :=
   (orderClause (cfgOf st) ((fanEvents st).map (·.2))).map fun cl =>
     let find (k : Nat) := st.msgs.find? fun m => m.id == k
     let name := nameOf st.msgs
-    let render (i j : Nat) (tail : String) : String :=
+    let render (i j : Nat) (tail : String) (f14 : Bool := true) : String :=
       let toServer := match find i with | some m => m.toServer | none => true
       let isNote := match find i with | some m => !m.isCall | none => false
-      let pre := if stateless st.tr && isNote && toServer then "C03: F14 stateless streamable server: " else "C03: "
+      let pre := if f14 && stateless st.tr && isNote && toServer then "C03: F14 stateless streamable server: " else "C03: "
       let dir := if toServer then "client→server" else "server→client"
       let peer := if st.np > 1 then match find i with | some m => s!" (peer {m.to})" | none => "" else ""
       s!"{pre}{dir}{peer}: the handler of message {name j} started before the handler of message {name i} had finished, {tail}"
@@ -342,7 +342,7 @@ def orderText (st : St) : Option String :=
       render i j s!"although the call that sent {i} had returned before {j} was sent{acked}"
     | .fanout g i j =>
       let meth := match st.fans.find? fun f => f.g == g with | some f => f.meth | none => "?"
-      render i j s!"although {i} is this peer's copy of a notification sent to several sessions by one notifying method (fan-out {g}, {meth}) and that method had returned before {j} was sent: a notifying method that addresses several sessions has sent to every one of them when it returns"
+      render i j s!"although {i} is this peer's copy of a notification sent to several sessions by one notifying method (fan-out {g}, {meth}) and that method had returned before {j} was sent: a notifying method that addresses several sessions has sent to every one of them when it returns" false
     | _ => "C03: ?"
 
 def engine : Engine St where
